@@ -11,7 +11,7 @@ use crate::infra::stats::Stats;
 use crate::infra::tape::Tape;
 use crate::model::head::{gen_ows, gen_plain_fields, Field, RespHead};
 
-pub use crate::model::framing::{framing_table, ClClass, Expect, Framing, CL_VALUES, TE_VALUES};
+pub use crate::model::framing::{framing_table, te_lines, ClClass, Expect, Framing, CL_VALUES, TE_VALUES};
 
 fn matches(e: &Expect, got: Framing) -> bool {
     match e {
@@ -178,19 +178,21 @@ fn build_head(status: u16, resp_v11: bool, cl_idx: usize, te_idx: usize) -> Resp
         fields.push(Field::new("Content-Length", CL_VALUES[cl_idx].0));
     }
     if te_idx != 0 {
-        fields.push(Field::new("Transfer-Encoding", TE_VALUES[te_idx].0));
+        for line in te_lines(te_idx) {
+            fields.push(Field::new("Transfer-Encoding", line));
+        }
     }
     RespHead { v11: resp_v11, status, reason: Some(b"R".to_vec()), fields }
 }
 
-const BASES: [u64; 5] = [9, 900, 2, 17, 11];
+const BASES: [u64; 5] = [9, 900, 2, 17, 13];
 
 fn exec_table(t: &mut Tape, st: &mut Stats) -> Result<(), String> {
     let m = t.below(9);
     let status = 100 + t.below(900) as u16;
     let resp_v11 = t.below(2) == 1;
     let cl_idx = t.below(17);
-    let te_idx = t.below(11);
+    let te_idx = t.below(13);
     st.describe(|| json!({"method": METHODS[m].as_str(), "status": status, "resp_v11": resp_v11, "content_length": if cl_idx == 0 { None } else { Some(CL_VALUES[cl_idx].0) }, "transfer_encoding": if te_idx == 0 { None } else { Some(TE_VALUES[te_idx].0) }}));
     let cell = Cell { method: METHODS[m].clone(), status, resp_v11, cl_idx, te_idx, head: build_head(status, resp_v11, cl_idx, te_idx) };
     check_cell(&cell, st)
@@ -219,17 +221,36 @@ fn exec_decorated(t: &mut Tape, st: &mut Stats) -> Result<(), String> {
         }
         special.push(f);
     }
+    let mut te_fields = vec![];
     if te_idx != 0 {
-        let mut f = Field::new(*t.pick(&["Transfer-Encoding", "transfer-encoding", "TRANSFER-ENCODING"]), TE_VALUES[te_idx].0);
-        f.ows_l = gen_ows(t);
-        special.push(f);
+        for line in te_lines(te_idx) {
+            let mut f = Field::new(*t.pick(&["Transfer-Encoding", "transfer-encoding", "TRANSFER-ENCODING"]), line);
+            f.ows_l = gen_ows(t);
+            te_fields.push(f);
+        }
+        special.push(te_fields.remove(0));
     }
     if special.len() == 2 && t.bool() {
         special.swap(0, 1);
     }
+    let mut te_at = None;
     for s in special {
         let i = t.below(fields.len() + 1);
+        if s.lname() == "transfer-encoding" {
+            te_at = Some(i);
+        } else if let Some(p) = te_at.as_mut() {
+            if i <= *p {
+                *p += 1;
+            }
+        }
         fields.insert(i, s);
+    }
+    // further lines of the same field: somewhere after the first one (the order of the lines of one name is significant)
+    if let Some(mut p) = te_at {
+        for f in te_fields {
+            p = p + 1 + t.below(fields.len() - p);
+            fields.insert(p, f);
+        }
     }
     if t.chance(30) {
         fields.push(Field::new("Connection", *t.pick(&["close", "keep-alive"])));
@@ -285,7 +306,9 @@ fn exec_paths(t: &mut Tape, st: &mut Stats) -> Result<(), String> {
         fields.push(Field::new("Content-Length", &n.to_string()));
     }
     if te_idx != 0 {
-        fields.push(Field::new("Transfer-Encoding", TE_VALUES[te_idx].0));
+        for line in te_lines(te_idx) {
+            fields.push(Field::new("Transfer-Encoding", line));
+        }
     }
     if (300..400).contains(&status) && t.bool() {
         fields.push(Field::new("Location", "/l"));
@@ -358,7 +381,7 @@ pub static DEF: PropDef = PropDef {
     id: "C06",
     rule: "enumeration 'table': 9 methods x every status 100..999 x response version {1.0, 1.1} x Content-Length in {absent, 0, 7, 007, \
 u64::MAX, u64::MAX+1, abc, -1, 1.5, empty, '7 7', 0x10, '7, 7', '7, abc', 'abc, 7', '7,', '7, 8'} x Transfer-Encoding in {absent, chunked, Chunked, CHUNKED, 'gzip, chunked', \
-'gzip,chunked', gzip, identity, chunkedx, xchunked, 'deflate, gzip'} = 3029400 cells, each through Flow (try_response, proceed, \
+'gzip,chunked', gzip, identity, chunkedx, xchunked, 'deflate, gzip', and two coding lists spread over two field lines: gzip + chunked, 'gzip, deflate' + Chunked} = 3580200 cells, each through Flow (try_response, proceed, \
 successor variant, body_mode) and Call (try_response, into_body, mode identified by a probe read). random 'decorated': the same \
 cells with field order, name case, OWS, reason phrases and surrounding fields varied. random 'paths': decided cells reached \
 through the exchange driver with request version 1.0 / 1.1 and five routes {plain, Expect + 100 seen, Expect refused by this very \
